@@ -70,6 +70,8 @@ fn every_byte(n: usize) -> Vec<usize> {
 
 pub fn scenarios(prop: Prop) -> Vec<StreamTrace> {
     let mut out: Vec<StreamTrace> = Vec::new();
+    // rover V5 (datagram receiver, in-place buffer) is not a streaming caller: not used for C06
+    let vmax: u8 = if prop == Prop::C06 { 4 } else { 5 };
     let mut idx = 0u64;
     let mut add = |mut t: StreamTrace, out: &mut Vec<StreamTrace>| {
         t.run = idx;
@@ -80,7 +82,7 @@ pub fn scenarios(prop: Prop) -> Vec<StreamTrace> {
 
     // 1. smallest and largest payloads, alone / with suffixes, every rover variant
     for l in [0usize, 1, 2, 3, 1022, 1023] {
-        for v in 1..=4u8 {
+        for v in 1..=vmax {
             add(build(prop, &format!("L{}_alone", l), vec![frame_piece(l, 0, 0x11)], vec![], vec![], v, "one_shot"), &mut out);
             add(
                 build(prop, &format!("L{}_then_byte", l), vec![frame_piece(l, 0, 0x11), piece("noise:one", "noise", vec![0x00], false)], vec![], vec![], v, "one_shot"),
@@ -99,7 +101,7 @@ pub fn scenarios(prop: Prop) -> Vec<StreamTrace> {
         }
     }
     // 2. three frames byte by byte; also cut exactly at / around every frame end
-    for v in 1..=4u8 {
+    for v in 1..=vmax {
         let ps = vec![frame_1005(), frame_piece(40, 0, 0x33), frame_piece(7, 63, 0xD3)];
         let n = total(&ps);
         add(build(prop, "three_frames_byte_by_byte", ps, every_byte(n), vec![], v, "every_byte"), &mut out);
@@ -109,7 +111,7 @@ pub fn scenarios(prop: Prop) -> Vec<StreamTrace> {
         add(build(prop, "three_frames_cut_around_ends", ps, vec![1, 2, 3, e1 - 3, e1 - 1, e1, e1 + 1, e1 + 2, e2 - 2, e2, e2 + 1], vec![], v, "aimed"), &mut out);
     }
     // 3. stray 0xD3 bytes and garbage before a frame
-    for v in 1..=4u8 {
+    for v in 1..=vmax {
         add(
             build(prop, "stray_d3_before_frame", vec![piece("noise:lone_d3", "noise", vec![0xD3], false), frame_1005()], vec![1], vec![], v, "aimed"),
             &mut out,
@@ -128,7 +130,7 @@ pub fn scenarios(prop: Prop) -> Vec<StreamTrace> {
         );
     }
     // 4. lone header announcing 1023 bytes at the end (blocks the tail), and in the middle
-    for v in 1..=4u8 {
+    for v in 1..=vmax {
         add(
             build(prop, "long_header_at_end", vec![frame_1005(), piece("noise:long_header", "noise", vec![0xD3, 0x03, 0xFF], false)], vec![10], vec![], v, "aimed"),
             &mut out,
@@ -147,7 +149,7 @@ pub fn scenarios(prop: Prop) -> Vec<StreamTrace> {
         );
     }
     // 5. nested frames: valid / broken / incomplete outer
-    for v in 1..=4u8 {
+    for v in 1..=vmax {
         let inner = frame_1005().bytes;
         let mut payload = vec![0x10, 0x20];
         payload.extend_from_slice(&inner);
@@ -167,7 +169,7 @@ pub fn scenarios(prop: Prop) -> Vec<StreamTrace> {
         );
     }
     // 6. near misses in front of a good frame
-    for v in 1..=4u8 {
+    for v in 1..=vmax {
         let good = frame_1005();
         let mut crc_bit = good.bytes.clone();
         let n = crc_bit.len();
@@ -223,7 +225,7 @@ pub fn scenarios(prop: Prop) -> Vec<StreamTrace> {
         }
         storm.push(frame_piece(base_l, 0, 0x61)); // one intact copy gets through
         let n = total(&storm);
-        for v in 1..=4u8 {
+        for v in 1..=vmax {
             let ps: Vec<Piece> = storm.iter().map(|p| Piece { label: p.label.clone(), kind: p.kind, bytes: p.bytes.clone(), intact: p.intact, c04: p.c04.clone() }).collect();
             let cuts: Vec<usize> = if v % 2 == 0 { every_byte(n) } else { (1..n).step_by(7).collect() };
             add(build(prop, "c04_storm_small_frame", ps, cuts, vec![], v, "aimed"), &mut out);
@@ -269,7 +271,7 @@ pub fn scenarios(prop: Prop) -> Vec<StreamTrace> {
         }
     }
     // 9. receiver restarts in the middle of a frame
-    for v in 1..=4u8 {
+    for v in 1..=vmax {
         let ps = vec![frame_1005(), frame_piece(30, 0, 0x21), frame_1005(), frame_piece(0, 0, 0)];
         let e1 = ps[0].bytes.len();
         add(build(prop, "restart_mid_frame", ps, vec![5, e1 + 10, e1 + 20], vec![e1 + 10], v, "restart"), &mut out);
